@@ -408,3 +408,65 @@ Theorem c04_compile_count_all_refuted :
   /\ users (compile code16 no_texts cc_log 25) = map N.of_nat (seq 10 16).
 Proof. exact compile_count_all_changes_answer. Qed.
 Print Assumptions c04_compile_count_all_refuted.
+
+(* ---------------------------------------------------------------- ... and the compiler's checkpoint look-ups through `.comp` / `.comp.idx` *)
+(* compile_cached = the loader above + latest_compaction_checkpoint_for_compile_v1 and
+   hierarchical_compaction_checkpoints_for_compile_v1 over the checkpoint sidecar and its index AS FOUND (ensure-from-the-
+   full-sidecar, the one bounded backward scan that must be complete, the reader's own latest-first fold, load / rebuild /
+   reload of the index with its validation, the caches-behind-head guard, `Ok(Some)` else replay): the whole read side of
+   a run's context.  Outside K2m, K1-at-the-head and K2 for these two files — CompFaithfulC: a checkpoint sidecar whose
+   every line parses is the projection (absent: a full sidecar that parses is the truth stream); IdxFaithful: an index
+   that loads (parses, non-empty, seqs non-decreasing) is the projection — decision and bundle are the replay's, for
+   every scan bound `me`, level count and both visibility rules. *)
+Theorem c04_compiled_context_transparent_partial :
+  forall (r : tail_count) (P : params) (texts : N -> N) (l : Compile.log) (a : N) (ks : list nat) (me : nat)
+         (mr full comp idx : cfile) (window : option (Compile.log * N)),
+  tail_count_sound r = true -> incr l -> wf_refs l = true ->
+  MrFaithful l mr full -> HeadFaithful l full -> WindowSpec (p_limit P) l a window ->
+  CompFaithfulC l comp full -> IdxFaithful l idx ->
+  compile_cached r P texts ks me mr full comp idx window l a = compile P texts l a.
+Proof. exact compile_cached_transparent. Qed.
+Print Assumptions c04_compiled_context_transparent_partial.
+
+Theorem c04_compiled_context_transparent_source_partial :
+  forall (texts : N -> N) (l : Compile.log) (a : N) (ks : list nat) (me : nat)
+         (mr full comp idx : cfile) (window : option (Compile.log * N)),
+  incr l -> wf_refs l = true ->
+  MrFaithful l mr full -> HeadFaithful l full -> WindowSpec (p_limit p_gen) l a window ->
+  CompFaithfulC l comp full -> IdxFaithful l idx ->
+  compile_cached gen_tail_count p_gen texts ks me mr full comp idx window l a = compile p_gen texts l a.
+Proof. exact gen_compile_cached_transparent. Qed.
+Print Assumptions c04_compiled_context_transparent_source_partial.
+
+(* the checkpoint reader folds latest-first with its own tie-break (larger to_seq, then larger seq); the replay folds in
+   stream order (later frame wins a tie): the same checkpoint on every stream with increasing seqs *)
+Theorem c04_checkpoint_reader_fold_agrees :
+  forall (fixed : bool) (from : N) (evs : Compile.log), incr evs ->
+  fold_left (latest_step_cache fixed from) (rev evs) None = latest_any fixed from evs.
+Proof. exact cache_fold_is_latest_any. Qed.
+Print Assumptions c04_checkpoint_reader_fold_agrees.
+
+(* hypotheses satisfiable: 8 messages, cumulative checkpoints to messages 4 and 8, one more message; intact caches / a
+   checkpoint sidecar with an unparsable line + an index that does not load / neither file *)
+Example c04_compiled_context_example :
+  Compile.valid_log ck_log = true /\ wf_refs ck_log = true
+  /\ MrFaithful ck_log ck_mr ck_full /\ HeadFaithful ck_log ck_full
+  /\ CompFaithfulC ck_log (Some ck_comp) ck_full /\ CompFaithfulC ck_log (Some ck_comp_damaged) ck_full /\ CompFaithfulC ck_log None ck_full
+  /\ IdxFaithful ck_log (Some ck_comp) /\ IdxFaithful ck_log (Some ck_idx_garbage) /\ IdxFaithful ck_log None
+  /\ summaries (compile_cached CountUpToCut code16 no_texts [20%nat] 100%nat ck_mr ck_full (Some ck_comp) (Some ck_comp) None ck_log 11) = [4; 8]
+  /\ summaries (compile_cached CountUpToCut code16 no_texts [20%nat] 100%nat ck_mr ck_full (Some ck_comp_damaged) (Some ck_idx_garbage) None ck_log 11) = [4; 8]
+  /\ summaries (compile_cached CountUpToCut code16 no_texts [20%nat] 100%nat ck_mr ck_full None None None ck_log 11) = [4; 8]
+  /\ summaries (compile code16 no_texts ck_log 11) = [4; 8]
+  /\ users (compile code16 no_texts ck_log 11) = [11].
+Proof. exact ck_examples. Qed.
+
+(* K2 is not vacuous for the compiled context (S4): the checkpoint sidecar re-created by one append, index built from it:
+   one summary ref and four messages too many *)
+Theorem c04_K2_changes_compiled_context :
+  ~ CompFaithfulC ck_log (Some ck_comp_recreated) ck_full
+  /\ summaries (compile_cached CountUpToCut code16 no_texts [20%nat] 100%nat ck_mr ck_full (Some ck_comp_recreated) None None ck_log 11) = [4]
+  /\ users (compile_cached CountUpToCut code16 no_texts [20%nat] 100%nat ck_mr ck_full (Some ck_comp_recreated) None None ck_log 11) = [5; 6; 7; 8; 11]
+  /\ summaries (compile code16 no_texts ck_log 11) = [4; 8]
+  /\ users (compile code16 no_texts ck_log 11) = [11].
+Proof. exact K2_changes_compiled_context. Qed.
+Print Assumptions c04_K2_changes_compiled_context.
